@@ -24,22 +24,25 @@ type DocLine struct {
 type Field struct {
 	Name     string    `json:"name"`
 	Embedded bool      `json:"embedded,omitempty"`
-	Ptr      bool      `json:"ptr,omitempty"`      // embedded by pointer
-	Type     string    `json:"type,omitempty"`     // Go type text of a named field ("" for embedded: the type is Name)
-	Class    string    `json:"class,omitempty"`    // named fields: "inline" | "empty" | "ordinary"
-	Generic  bool      `json:"generic,omitempty"`  // embedded type is an instance Name[int] of a generic type
-	Foreign  string    `json:"foreign,omitempty"`  // embedded type of another package: "sync.Mutex" | "unicode.Range16"
+	Ptr      bool      `json:"ptr,omitempty"`     // embedded by pointer
+	Type     string    `json:"type,omitempty"`    // Go type text of a named field ("" for embedded: the type is Name)
+	Class    string    `json:"class,omitempty"`   // named fields: "inline" | "empty" | "ordinary"
+	Generic  bool      `json:"generic,omitempty"` // embedded type is an instance Name[int] of a generic type
+	Foreign  string    `json:"foreign,omitempty"` // embedded type of another package: "sync.Mutex" | "unicode.Range16"
 	Doc      []DocLine `json:"doc,omitempty"`
 }
 
 type Type struct {
 	Name     string    `json:"name"`
-	Kind     string    `json:"kind"`            // "struct" | "iface" | "other"
-	Under    string    `json:"under,omitempty"` // Go type text for iface / other
+	Kind     string    `json:"kind"`              // "struct" | "iface" | "other"
+	Under    string    `json:"under,omitempty"`   // Go type text for iface / other
 	Generic  bool      `json:"generic,omitempty"` // one type parameter [P0 any] (P0 comparable for maps)
 	Disabled bool      `json:"disabled,omitempty"`
 	Doc      []DocLine `json:"doc,omitempty"`
 	Fields   []Field   `json:"fields,omitempty"`
+	// Over: the type is a defined type over a struct of another package, `type Name os.ProcAttr` / `type Name q.Attr`
+	// (Kind is "struct"; Fields are derived: the fields of the foreign struct with the doc lines of their declaration)
+	Over string `json:"over,omitempty"`
 }
 
 type Input struct {
@@ -48,7 +51,10 @@ type Input struct {
 	KnownOnly bool              `json:"known_only,omitempty"`
 	NoPkgTag  bool              `json:"no_pkg_tag,omitempty"` // the package clause carries no +gengo:runtimedoc: only types tagged themselves are enabled
 	Broken    bool              `json:"broken,omitempty"`     // malformed stream: the source has a syntax error
-	Grouped   bool              `json:"grouped,omitempty"` // declare the types in one  type ( ... )  group
+	Grouped   bool              `json:"grouped,omitempty"`    // declare the types in one  type ( ... )  group
+	// Others: struct types of the package example.com/m/q of the same module (ordinary fields only), which p imports
+	// when a type of p is defined over one of them
+	Others []Type `json:"others,omitempty"`
 }
 
 // ---- what the generator sees of it ----
@@ -248,6 +254,11 @@ func sortedTypes(in *Input) []*Type {
 
 // normalize recomputes each named field's class from its type text, as the generator's type tests see it.
 func normalize(in *Input) {
+	_ = fillOvers(in, defaultGoroot())
+	normalizeClasses(in)
+}
+
+func normalizeClasses(in *Input) {
 	for i := range in.Types {
 		for k := range in.Types[i].Fields {
 			f := &in.Types[i].Fields[k]
